@@ -164,6 +164,17 @@ static int sampleN(int f, int pl, int x, int y) {
     return (v << 2) | lo;
 }
 
+/* ------------------------------------------------------------------ hook H2: EncDec segment trace */
+extern void (*svt_verif_trace_cb)(int kind, uint64_t a, uint64_t b, uint64_t c, uint64_t d);
+typedef struct { uint64_t kind, a, b, c, d; } TraceRec;
+static TraceRec *trace_buf;
+static volatile long trace_n;
+#define TRACE_CAP (1 << 20)
+static void trace_cb(int kind, uint64_t a, uint64_t b, uint64_t c, uint64_t d) {
+    long i = __atomic_fetch_add(&trace_n, 1, __ATOMIC_SEQ_CST);
+    if (i < TRACE_CAP) { trace_buf[i].kind = (uint64_t)kind; trace_buf[i].a = a; trace_buf[i].b = b; trace_buf[i].c = c; trace_buf[i].d = d; }
+}
+
 /* ------------------------------------------------------------------ session */
 typedef struct { uint8_t *buf; size_t len, cap; } Bytes;
 static void bput(Bytes *b, const void *p, size_t n) {
@@ -265,6 +276,7 @@ int main(int argc, char **argv) {
     const char *pat = "d", *final_ = "b", *out = NULL, *ptsmode = "seq", *lifetime = "keep";
     int stride_extra = 0, padbyte = 0, priv = 1, hdr = 1, prefill = 0, teardown_at = -1, send_eos = 1;
     int drainall = 1, teardown_drain = 0;
+    const char *segtrace = NULL;
     const char *sets[512]; int nsets = 0;
 
     vs_init();
@@ -282,9 +294,11 @@ int main(int argc, char **argv) {
         else if (!strcmp(k, "lifetime")) lifetime = v; else if (!strcmp(k, "priv")) priv = atoi(v);
         else if (!strcmp(k, "hdr")) hdr = atoi(v); else if (!strcmp(k, "prefill")) prefill = atoi(v);
         else if (!strcmp(k, "teardown_at")) teardown_at = atoi(v); else if (!strcmp(k, "send_eos")) send_eos = atoi(v);
+        else if (!strcmp(k, "segtrace")) segtrace = v;
         else if (!strcmp(k, "drainall")) drainall = atoi(v); else if (!strcmp(k, "teardown_drain")) teardown_drain = atoi(v);
         else { *eq = '='; if (nsets < 512) sets[nsets++] = argv[i]; }
     }
+    if (segtrace) { trace_buf = calloc(TRACE_CAP, sizeof(TraceRec)); svt_verif_trace_cb = trace_cb; }
     memset(cfg, prefill, sizeof *cfg);
     EbErrorType e_ih = svt_av1_enc_init_handle(&hdl, NULL, cfg);
     if (e_ih != EB_ErrorNone) { printf("{\"init_handle\":%d}\n", (int)e_ih); return 0; }
@@ -450,6 +464,11 @@ int main(int argc, char **argv) {
     printf("]");
     if (getenv("ENCDRV_DUMPCFG")) { printf(",\"cfg\":"); dump_fields(cfg, stdout); }
     printf("}\n");
+    if (segtrace) {
+        FILE *tf = fopen(segtrace, "wb");
+        long n = trace_n < TRACE_CAP ? trace_n : TRACE_CAP;
+        if (tf) { fwrite(trace_buf, sizeof(TraceRec), (size_t)n, tf); fclose(tf); }
+    }
     if (out) {
         writefile(out, ".obu", obu.buf, obu.len);
         writefile(out, ".rec", recbytes.buf, recbytes.len);
